@@ -337,6 +337,9 @@ def _judge(v):
             t = lt['secs_since_epoch'] + lt['nanos_since_epoch'] / 1e9
             fresh = t_before - 0.01 <= t <= t_after + 0.01
             return not fresh, 'native stamp %.3f, run between %.3f and %.3f' % (t, t_before, t_after)
+        if role == 'stamp-of-others':
+            changed = [k for k in pre if k != addr and (post.get(k) or {}).get('last_time') != pre[k].get('last_time')]
+            return bool(changed), 'native last-heard stamps of other aircraft changed: %s' % changed
         if role == 'distance-iff-position':
             co = post.get(addr, {}).get('coords') or {}
             return (co.get('position') is None) != (co.get('kilo_distance') is None), 'native position=%r distance=%r' % (co.get('position'), co.get('kilo_distance'))
